@@ -78,3 +78,31 @@ Theorem C07_kill_in_block_keeps_file :
   lock w3_final = None /\ length (rows (db w3_final)) = 1%nat /\ dangling w3_final = false.
 Proof. exact (proj1 (proj2 (proj2 repaired_body_keeps_file))). Qed.
 Print Assumptions C07_kill_in_block_keeps_file.
+
+(* A kill while a FanoutCache transaction block ends (finding C07-F2): the shard transactions commit one after the other
+   (model/FanoutBlock.v), so a process killed after k of them leaves the last k shards of the lock order after the block and the others
+   before it.  "The interrupted operation is fully applied or not at all" is false for the whole cache when two shards change, true per
+   shard, and true for the whole cache when at most one shard changes.  The commit order of the model is compared with the directory a
+   killed process leaves behind on every run (harness/props/c07.py fanout_block_witness). *)
+From DC Require Import FanoutBase Gen_Fanout Fanout FanoutBlock FanoutBlockFacts.
+
+Theorem C07_fanout_block_kill_refuted :
+  cache_view Z 2 1 w_old w_new = [0; 2]%Z /\ all_or_nothing Z Z.eqb 2 1 w_old w_new = false /\
+  all_or_nothing Z Z.eqb 2 0 w_old w_new = true /\ all_or_nothing Z Z.eqb 2 2 w_old w_new = true.
+Proof.
+  exact (conj (proj1 fanout_block_torn_between_commits) (conj (proj1 (proj2 fanout_block_torn_between_commits))
+        (conj (proj1 (proj2 (proj2 fanout_block_torn_between_commits))) (proj1 (proj2 (proj2 (proj2 fanout_block_torn_between_commits))))))).
+Qed.
+Print Assumptions C07_fanout_block_kill_refuted.
+
+Theorem C07_fanout_block_kill_per_shard : forall (S : Type) order k (old new : nat -> S) i,
+  shard_view S order k old new i = old i \/ shard_view S order k old new i = new i.
+Proof. exact per_shard_all_or_nothing. Qed.
+Print Assumptions C07_fanout_block_kill_per_shard.
+
+Theorem C07_fanout_block_kill_partial : forall (S : Type) (eqb : S -> S -> bool), (forall a b, eqb a b = true <-> a = b) ->
+  forall n k (old new : nat -> S) j,
+  (forall i, (i < n)%nat -> i <> j -> old i = new i) ->
+  cache_view S n k old new = all_of S n old \/ cache_view S n k old new = all_of S n new.
+Proof. intros S eqb H. exact (one_shard_block_all_or_nothing S). Qed.
+Print Assumptions C07_fanout_block_kill_partial.
